@@ -268,15 +268,15 @@ Fixpoint eval (e : expr) (st : store) : res sval :=
       let k := to_int vi in
       do _ <- chk (in_range k (alen r)) s;
       match r with
-      | A1 _ d => Ok (nthZ d k)
+      | A1 dt d => Ok (coerce dt (nthZ d k))   (* a cell is read at the array's dtype *)
       | A2 _ _ _ _ => Er (OOB s)      (* row reads of 2-D arrays are not part of the subset *)
       end
   | ERead2 s a i j =>
       do r <- get_arr st a; do vi <- eval i st; do vj <- eval j st;
       match r with
-      | A2 _ n c d =>
+      | A2 dt n c d =>
           do _ <- chk (in_range (to_int vi) n && in_range (to_int vj) c) s;
-          Ok (nthZ d (to_int vi * c + to_int vj))
+          Ok (coerce dt (nthZ d (to_int vi * c + to_int vj)))
       | A1 _ _ => Er (OOB s)
       end
   | ESum a lo hi =>
